@@ -27,6 +27,33 @@ Definition mark_done (n : nat) (sub : string) (stamp : nat) (q : areq) : areq :=
        q_extra := q_extra q |}
   else q.
 
+(* What the authorization request asked for (OIDC Core 6.1): a parameter is taken from the signed
+   Request Object when the object has that member, else from the query.  `scope` of the object
+   counts only for an OpenID request (query scope has `openid`).  code_challenge and
+   code_challenge_method are two parameters; a challenge for which neither place names a method is
+   a plain one (RFC 7636 4.3). *)
+Definition supersede {A} (present : A -> bool) (obj : option A) (query : A) : A :=
+  match obj with Some v => if present v then v else query | None => query end.
+Definition nonempty (v : string) : bool := negb (String.eqb v "").
+
+Definition asked_uri (uri : string) (x : auth_extra) : string :=
+  supersede nonempty (option_map ro_uri (x_ro x)) uri.
+Definition asked_nonce (nonce : string) (x : auth_extra) : string :=
+  supersede nonempty (option_map ro_nonce (x_ro x)) nonce.
+Definition asked_scopes (scopes : list string) (x : auth_extra) : list string :=
+  if string_in "openid" scopes
+  then supersede (fun l => negb (is_nil l)) (option_map ro_scopes (x_ro x)) scopes
+  else scopes.
+Definition asked_chal (chal : option challenge) (x : auth_extra) : option challenge :=
+  match x_ro x with
+  | None => chal
+  | Some ro =>
+      let q_cc := match chal with Some c => snd c | None => "" end in
+      let q_s256 := match chal with Some c => fst c | None => false end in
+      let cc := supersede nonempty (Some (ro_cc ro)) q_cc in
+      if nonempty cc then Some (match ro_cm ro with Some m => m | None => q_s256 end, cc) else None
+  end.
+
 Definition rt_of_resp (m : nat) (t : tokresp) : rtok :=
   {| r_id := m; r_client := t_azp t; r_sub := t_at_sub t; r_aud := t_aud t; r_auth := t_auth t; r_scopes := t_scope t |}.
 
@@ -36,7 +63,8 @@ Definition add_rt (g : ledger) (t : tokresp) : list rtok :=
 Definition ledger_step (g : ledger) (o : op) (x : out) : ledger :=
   match o, x with
   | Authorize cl uri sc nonce chal ax, OAuthz (Some n) =>
-      {| g_reqs := {| q_id := n; q_client := cl; q_uri := uri; q_scopes := sc; q_nonce := nonce; q_chal := chal;
+      {| g_reqs := {| q_id := n; q_client := cl; q_uri := asked_uri uri ax; q_scopes := asked_scopes sc ax;
+                      q_nonce := asked_nonce nonce ax; q_chal := asked_chal chal ax;
                       q_done := false; q_sub := hinted_sub ax; q_auth := 0; q_extra := ax |} :: g_reqs g;
          g_codes := g_codes g; g_used := g_used g; g_rts := g_rts g; g_rot := g_rot g; g_norefresh := g_norefresh g |}
   | Login n sub stamp, OLogin true =>
@@ -152,7 +180,9 @@ Definition c07_ok (g : ledger) (o : op) (x : out) : bool :=
       match g_rt g n with
       | None => false
       | Some r =>
-          negb (nat_in n (g_rot g))
+          (* a token that a rotating storage already exchanged is dead; a non-rotating storage
+             (f_keep) keeps the presented token valid *)
+          (f_keep cf || negb (nat_in n (g_rot g)))
           && f_refresh cf
           && cred_proves cf cr (r_client r)
           && client_refresh cf (r_client r) && negb (string_in (r_client r) (g_norefresh g))
@@ -162,8 +192,11 @@ Definition c07_ok (g : ledger) (o : op) (x : out) : bool :=
              (of this or another client) did in between may show *)
           && strs_eqb (t_scope t) (match scopes with [] => r_scopes r | _ => scopes end)
           && match t_jwt t with Some c => String.eqb c (r_client r) | None => true end
+          (* the response carries the storage's refresh token: a new one (never seen before) from a
+             rotating storage, the presented one from a storage that keeps it *)
           && match t_rt t with
-             | Some m => negb (Nat.eqb m n) && match g_rt g m with None => true | Some _ => false end
+             | Some m => if f_keep cf then Nat.eqb m n
+                         else negb (Nat.eqb m n) && match g_rt g m with None => true | Some _ => false end
              | None => false
              end
           && (negb (string_in "openid" (t_scope t)) || String.eqb (t_sub t) (r_sub r))
